@@ -15,6 +15,7 @@ import (
 	"encoding/hex"
 	"fmt"
 	"strings"
+	"sync"
 
 	"github.com/postalsys/muti-metroo/internal/crypto"
 	"github.com/postalsys/muti-metroo/verifharness/vh"
@@ -140,7 +141,7 @@ func classify(err error) string {
 	case strings.HasPrefix(m, "decrypt:"):
 		return "auth"
 	}
-	return "other:" + m
+	return "reject:" + m
 }
 
 func buildFrame(fs *FrameSpec, em []emitted) []byte {
@@ -326,6 +327,9 @@ func coqOutcome(o obs) string {
 	case "auth":
 		return "OAuth"
 	}
+	if strings.HasPrefix(o.outcome, "reject:") {
+		return "OReject"
+	}
 	return "OOther"
 }
 
@@ -473,6 +477,64 @@ func genSchedule(r *vh.Rand, n int) *Schedule {
 	return s
 }
 
+// concurrentDeliveries: the same genuine frames are handed to one endpoint by
+// several goroutines at once (a relay duplicating traffic over parallel
+// paths); each frame may be accepted at most once, and accepted counters must
+// respect the window. Monitor only (the schedule is not deterministic).
+func concurrentDeliveries(c *vh.Ctx) {
+	rounds := c.N(120, 3000)
+	for round := 0; round < rounds; round++ {
+		ski, skr, err := newPair()
+		if err != nil {
+			return
+		}
+		const frames = 3
+		var fs [][]byte
+		big := make([]byte, 48*1024) // a long AEAD open widens the gap between the window check and its update
+		for i := 0; i < frames; i++ {
+			big[0] = byte(i)
+			ct, _ := ski.Encrypt(big)
+			fs = append(fs, ct)
+		}
+		const g = 8
+		accepted := make([][]int, g)
+		var wg sync.WaitGroup
+		start := make(chan struct{})
+		for w := 0; w < g; w++ {
+			wg.Add(1)
+			go func(w int) {
+				defer wg.Done()
+				<-start
+				for i := 0; i < frames; i++ {
+					if _, err := skr.Decrypt(fs[i]); err == nil {
+						accepted[w] = append(accepted[w], i)
+					}
+				}
+			}(w)
+		}
+		close(start)
+		wg.Wait()
+		count := map[int]int{}
+		for _, a := range accepted {
+			for _, i := range a {
+				count[i]++
+			}
+		}
+		rp := map[string]any{"kind": "concurrent-duplicate-delivery", "frames": frames, "goroutines": g, "round": round}
+		for i, n := range count {
+			if n > 1 {
+				c.Fail("accepted-replay-concurrent", fmt.Sprintf("frame %d was accepted %d times when delivered by %d goroutines at once", i, n, g), rp)
+			}
+		}
+		_, rn := skr.VerifCounters()
+		if rn > frames {
+			c.Fail("window-beyond-sent", fmt.Sprintf("receive counter %d after only %d frames were sent", rn, frames), rp)
+		}
+		c.Case(fmt.Sprintf("concurrent/%d", round), len(count) > 0, rp)
+		c.Count("concurrent-duplicate-delivery")
+	}
+}
+
 func main() {
 	c := vh.Start("C01")
 	defer c.Finish()
@@ -524,6 +586,10 @@ func main() {
 			r := root.Fork()
 			do(genSchedule(r, r.Pick(4, 8, 16, 30, 45)))
 		}
+	}
+
+	if c.Replay == "" {
+		concurrentDeliveries(c)
 	}
 
 	var sb strings.Builder
